@@ -4,6 +4,7 @@ from __future__ import annotations
 import ast
 
 from ..repo import calls_in, dotted, norm_src, walk_no_nested
+from ..match import Matcher, src as msrc
 from .common import kwarg, need_funcs
 
 MC = "acryo/molecules/core.py::Molecules."
@@ -43,7 +44,7 @@ def check(model, rep, tier):
             keys = [k.value if isinstance(k, ast.Constant) else None for k in d.keys]
             ok = keys == csv_cols
             det = f"keys {keys}"
-            assigns = {norm_src(n.targets[0]): n.value for n in walk_no_nested(f.node) if isinstance(n, ast.Assign)}
+            MT = Matcher(f)
             for k, v in zip(keys, d.values):
                 if not (isinstance(v, ast.Subscript) and isinstance(v.slice, ast.Tuple) and len(v.slice.elts) == 2):
                     ok = False
@@ -52,17 +53,14 @@ def check(model, rep, tier):
                 col = norm_src(v.slice.elts[1])
                 base = norm_src(v.value)
                 exp_idx = {"z": "0", "y": "1", "x": "2", "zvec": "0", "yvec": "1", "xvec": "2"}.get(k)
-                exp_base = ("self.pos", "self._pos") if k in ("z", "y", "x") else ("rotvec",)
+                exp_base = ("self.pos", "self._pos") if k in ("z", "y", "x") else ("self.rotvec().astype(np.float32)",)
+                base = norm_src(MT.expr(v.value))
                 if col != exp_idx or base not in exp_base:
                     ok = False
                     det += f"; column `{k}` is written from {norm_src(v)} (expected {exp_base[0]}[:, {exp_idx}])"
-            rv = assigns.get("rotvec")
-            if rv is None or norm_src(rv) not in ("self.rotvec().astype(np.float32)",):
-                ok = False
-                det += f"; rotvec = {norm_src(rv) if rv is not None else None}"
             # features appended after the six columns
             wc = [c for c in calls_in(f) if isinstance(c.func, ast.Attribute) and c.func.attr == "with_columns"]
-            if not (len(wc) == 1 and norm_src(wc[0].func.value) == "df" and "self._features" in norm_src(wc[0])):
+            if not (len(wc) == 1 and MT.all_of(["$df = pl.DataFrame($$d)", "$df = $df.with_columns(list(self._features))", "return $df"])[0]):
                 ok = False
                 det += "; features are not appended with df.with_columns(list(self._features))"
             if "astype" in norm_src(d):
@@ -87,8 +85,9 @@ def check(model, rep, tier):
     if f is not None:
         s = norm_src(f.node)
         rep.instance("S10", f.loc())
-        ok = "pos = df.select(pos_cols)" in s and "rotvec = df.select(rot_cols)" in s and "Rotation.from_rotvec(rotvec.to_numpy())" in s and \
-            "cls(pos.to_numpy(), rot, features=features)" in s and "[c for c in df.columns if c not in cols]" in s
+        ok = Matcher(f).all_of(["$pos = df.select(pos_cols)", "$rv = df.select(rot_cols)", "$cols = $pos.columns + $rv.columns",
+                                "$fc = [$c for $c in df.columns if $c not in $cols]", "$feat = df.select($fc)", "$rot = Rotation.from_rotvec($rv.to_numpy())",
+                                "return cls($pos.to_numpy(), $rot, features=$feat)"])[0]
         rep.ob("S10", f.anchor, "from_dataframe reads positions from pos_cols, the rotation vector from rot_cols and keeps every other column as a feature, in column order",
                ok, "", node=f.node, fn=f, clause="layout", stmt="def from_dataframe body")
     # funnels
@@ -97,8 +96,8 @@ def check(model, rep, tier):
         if f is None:
             continue
         rets = [x for x in walk_no_nested(f.node) if isinstance(x, ast.Return) and x.value is not None]
-        ok = len(rets) == 1 and isinstance(rets[0].value, ast.Call) and norm_src(rets[0].value.func) == f"cls.{callee}" and \
-            [norm_src(a) for a in rets[0].value.args] == ["df", "pos_cols", "rot_cols"]
+        rd = "read_csv" if r == "from_csv" else "read_parquet"
+        ok = len(rets) == 1 and Matcher(f).all_of([f"$df = pl.{rd}(path, ...)", f"return cls.{callee}($df, pos_cols, rot_cols)"])[0]
         rep.instance("S10", f.loc())
         rep.ob("S10", f.anchor, f"{r} forwards (df, pos_cols, rot_cols) to from_dataframe", ok, "", node=f.node, fn=f, clause="layout", stmt=f"def {r} funnel")
     for w in ("to_csv", "to_parquet"):
